@@ -44,7 +44,7 @@ type Case struct {
 	Rounds     int            `json:"rounds"` // every goroutine repeats its job this many times
 }
 
-var jobKinds = []string{"variant-convert", "write-reuse", "read-any", "reconstruct", "write", "read-rows", "read-rows", "read-pages", "read-index", "read-bloom", "column-writers", "rowgroups", "buffer-sort", "async-seek", "schema-of"}
+var jobKinds = []string{"read-encrypted", "variant-convert", "write-reuse", "read-any", "reconstruct", "write", "read-rows", "read-rows", "read-pages", "read-index", "read-bloom", "column-writers", "rowgroups", "buffer-sort", "async-seek", "schema-of"}
 
 func genCase(t *rapid.T) Case {
 	var c Case
@@ -102,6 +102,8 @@ type world struct {
 	data   []byte             // the shared file's bytes
 	file   *parquet.File      // opened once, shared by all reader jobs
 	afile  *parquet.File      // same bytes opened in asynchronous read mode
+	edata  []byte             // the same rows in an encrypted file
+	efile  *parquet.File      // ... opened without its page index (dictionaries are loaded lazily)
 	pool   parquet.BufferPool // shared by the writers that defer their bloom filters
 	vrg    parquet.RowGroup   // a row group with a shredded variant column (fixed content)
 	vconv  parquet.Conversion // shredded -> unshredded, ONE value shared by every goroutine
@@ -290,6 +292,21 @@ func (w *world) run(j Job) (string, error) {
 		r := rg.Rows()
 		defer r.Close()
 		if k := int64(j.Seed) % (rg.NumRows() + 1); k > 0 && j.Seed%2 == 0 {
+			if err := r.SeekToRow(k); err != nil {
+				return "", err
+			}
+		}
+		rows, err := pq.ReadAllRows(r, j.N)
+		if err != nil {
+			return "", err
+		}
+		return rowsDigest(rows), nil
+	case "read-encrypted":
+		rgs := w.efile.RowGroups()
+		rg := rgs[j.Seed%len(rgs)]
+		r := rg.Rows()
+		defer r.Close()
+		if k := int64(j.Seed) % (rg.NumRows() + 1); k > 0 && j.Seed%3 != 0 {
 			if err := r.SeekToRow(k); err != nil {
 				return "", err
 			}
@@ -530,6 +547,15 @@ func runCase(c Case, o *kit.Obs) *kit.Failure {
 		return nil
 	}
 	w.data = data
+	ekey := pq.FooterKeyOnly("0123456789abcdef")
+	for _, j := range c.Jobs {
+		if j.Kind == "read-encrypted" && w.edata == nil {
+			if w.edata, err = pq.WriteFileWith(&c.Schema, w.cols, w.rows, c.Opts, nil, parquet.WithEncryption(&parquet.EncryptionConfig{FooterKey: ekey, EncryptedFooter: c.Procs%2 == 0})); err != nil {
+				o.Rejected()
+				return nil
+			}
+		}
+	}
 	for _, j := range c.Jobs {
 		if j.Kind == "variant-convert" && w.vrg == nil {
 			if err := w.variantWorld(); err != nil {
@@ -545,6 +571,13 @@ func runCase(c Case, o *kit.Obs) *kit.Failure {
 			return false
 		}
 		w.file, w.afile = f, af
+		if w.edata != nil {
+			ef, err := pq.Open(w.edata, parquet.WithDecryption(ekey), parquet.SkipPageIndex(true))
+			if err != nil || len(ef.RowGroups()) == 0 {
+				return false
+			}
+			w.efile = ef
+		}
 		return true
 	}
 	if !open() {
